@@ -36,13 +36,14 @@ class Effects:
         ss = cfg.succ[bid]
         if consts and cfg.is_cond_branch(bid):
             leaf = cfg.branch_leaf(bid)
-            neg = False
-            x = leaf
-            while x is not None and x.get("k") == "un" and x.get("op") == "!":
-                neg = not neg
-                x = strip(x["e"])
-            if x is not None and x.get("k") == "ref" and x.get("decl") in consts:
-                v = bool(consts[x["decl"]]) != neg
+            # the branch is decided when its condition evaluates under the constant parameter bindings alone
+            # (a bool flag, `policy == Policy::reset`, `!flag`, ...)
+            from . import tables
+            try:
+                v = tables.ev(leaf, dict(consts)) if leaf is not None else None
+            except tables.Unsupported:
+                v = None
+            if v is not None and len(ss) == 2:
                 return [ss[0]] if v else [ss[1]]
         return [s for s in ss]
 
